@@ -30,17 +30,31 @@ func vhQueue(n int) (*Queue, []*Entry, []*vhCB, []bool, *[]*Entry) {
 		cbs[i] = &vhCB{order: order, q: q}
 		es[i] = &Entry{Callback: cbs[i]}
 	}
+	// some entries were registered and unregistered earlier (unregistration does not clear an
+	// entry's own links, so such an entry carries stale next/prev pointers)
+	stale := make([]bool, n)
+	for i := range es {
+		if vnBool("stale") {
+			q.EventRegister(es[i], EventMask(0xffff))
+			stale[i] = true
+		}
+	}
 	// pick a permutation prefix: which entry is registered next, or stop
 	for k := 0; k < n; k++ {
 		c := vnChoice("pick", n+1)
 		if c == n {
 			break
 		}
-		if in[c] {
+		if in[c] || stale[c] {
 			vassume(false) // no entry twice (documented precondition)
 		}
 		q.EventRegister(es[c], EventMask(vnU16("mask")))
 		in[c] = true
+	}
+	for i := range es {
+		if stale[i] {
+			q.EventUnregister(es[i])
+		}
 	}
 	return q, es, cbs, in, order
 }
